@@ -184,7 +184,7 @@ func c14Run(w *W) {
 				break
 			}
 		}
-		kinds := []c14Seg{{"a", false}, {"a", true}, {"", true}}
+		kinds := []c14Seg{{"a", false}, {"a", true}, {"", true}, {"~zz", false}}
 		if ws != "" {
 			kinds = append(kinds, c14Seg{ws, false}, c14Seg{ws, true})
 		}
